@@ -268,7 +268,8 @@ func (m *machine) Apply(o op) error {
 	var events []eventsOf
 	switch o.Kind {
 	case "create":
-		name := fmt.Sprintf("feed%d", len(m.feeds))
+		// names that are prefixes of each other (store keys of one feed must not cover another's)
+		name := []string{"eth", "eth-usd", "et", "eth-usd/2", "btc"}[len(m.feeds)%5]
 		r := c.Deliver(&oracletypes.MsgCreateFeed{FeedName: name, LatestHistory: o.Hist, Description: "d", Creator: m.addr(o.Who), ServiceName: svcName,
 			Providers: m.provAddrs(o.Providers), Input: input, Timeout: o.Timeout, ServiceFeeCap: sdk.NewCoins(sdk.NewInt64Coin("stake", 200)),
 			RepeatedFrequency: o.Freq, AggregateFunc: o.Agg, ValueJsonPath: "last", ResponseThreshold: o.Thr})
